@@ -373,6 +373,41 @@ def ob_own_slots_not_ingested(run, oid):
     return o
 
 
+def ob_second_cert_no_watermark_assert(run, oid):
+    """one notar vote can create the notarization AND the fast-finalization certificate; PoolImpl hands them to the finality tracker one after the other"""
+    prog = run.program("lib")
+    o = run.ob(oid, "FinalityTracker::mark_fast_finalized does not assert slot >= first_unpruned_slot (it can be reached, in the same add_vote call, after mark_notarized moved the watermark)",
+               "a validator with more than 20% of the stake lifts a block from < 60% to >= 80% with one vote: with the finalization certificate held, the notarization certificate "
+               "finalizes the slot and advances the watermark, and the fast-finalization certificate of the same vote arrives for a slot below it - an assertion there panics "
+               "under the pool lock (debug builds)", floor=1)
+    b = prog.body(A + "consensus::pool::finality_tracker::FinalityTracker::mark_fast_finalized")
+    if b is None:
+        o.missing("FinalityTracker::mark_fast_finalized")
+        return o
+    bad = []
+    pred = b.pred()
+    for bl in b.blocks:
+        if not b.is_panic_block(bl["id"]) or bl["id"] not in b.reach():
+            continue
+        # the decision that leads INTO the panic: walk back over straight-line blocks to the nearest switch
+        cur, seen = bl["id"], set()
+        while cur is not None and cur not in seen:
+            seen.add(cur)
+            ps = [p_ for p_ in pred[cur] if p_ in b.reach()]
+            if len(ps) != 1:
+                break
+            t = b.blocks[ps[0]]["term"]
+            if t["k"] == "switch":
+                if K.mentions_field(b.operand_term(t["d"]), "first_unpruned_slot"):
+                    bad.append((bl["id"], mir.show(b.operand_term(t["d"]))[:80]))
+                break
+            cur = ps[0]
+    o.check(not bad, "mark_fast_finalized|no-watermark-assertion", "no panic in mark_fast_finalized is conditioned on the watermark", b.span, {"sites": bad[:3]})
+    early = any(any(a[0] == "lt" and a[2] is True and any(K.mentions_field(x, "first_unpruned_slot") for x in a[1] if isinstance(x, tuple)) for a in G.guard_atoms(b, c.bb, prog)) for c in b.calls() if c.name.endswith("default"))
+    o.check(early, "mark_fast_finalized|already-decided-is-a-no-op", "a slot below the watermark is answered with the empty event", b.span)
+    return o
+
+
 def ob_recv_flags(run, oid):
     """the reviewed reason for `&scratch[i][..len]` in UdpNetwork::recv_batch is 'len <= buffer size because MSG_TRUNC is not requested': decide that"""
     prog = run.program("lib")
@@ -396,6 +431,16 @@ def ob_recv_flags(run, oid):
 def check(run):
     ob_recv_flags(run, "O10.7")
     ob_own_slots_not_ingested(run, "O10.1m")
+    ob_second_cert_no_watermark_assert(run, "O10.1p")
+    # the reviewed reason of `unreachable!("own block failed reconstruction")` in add_own_slice: whatever produce_slice_payload puts into a slice (any number of
+    # client transactions that fit the byte budget) decodes again - the slice decoder's preallocation limit covers the largest count
+    from . import C19 as _C19d
+    with run.restricted(lambda oid: oid == "O10.10.1"):
+        _C19d.check(run, prefix="O10.10")
+    # the reviewed reason of the 'consensus safety violation' panics in the finality tracker is 'only if conflicting certificates were admitted': that holds
+    # only while implicit finalization starts from the block recorded as finalized (not from any block registered for a finalized slot)
+    from . import C08 as _C08i
+    _C08i.ob_implicit_sources(run, "O10.1n")
     # "...or wedges a node": a response that does not verify must leave the request outstanding, so that the timeout re-issues it
     from . import C14 as _C14w
     with run.restricted(lambda oid: oid == "O10.9.2"):
